@@ -6,7 +6,12 @@ S->C: Triangles.tla enumerates every set of <= n integer coordinates in (-r..r)^
       with_vertices (gamma: side lengths and offsets dyadic, decimal and arbitrary reals).
 C->S: every call is recorded in exact fine-lattice units (alpha: divide by the unit, round, count residuals > 1e-9 as
       off-lattice) and judged by Trace_Triangles.tla; seeded random larger sets (random coordinates, for_limits_and_scale
-      of both classes, free integer-vertex ArrayTriangles) extend the reach beyond the exhaustive bound."""
+      of both classes, free integer-vertex ArrayTriangles) extend the reach beyond the exhaustive bound.
+Irregular vertex/index arrays (round 3): Triangles.tla also enumerates every array of nv distinct points of a small integer
+      grid with 2..nt non-degenerate triangles using all of them (shared / unshared vertices, overlapping, elongated); each is
+      realised as ArrayTriangles(indices, vertices) directly, through with_vertices on a regular set, or through for_indexes of a
+      larger set, and neighborhood() (and the neighbourhood of the neighbourhood) is judged on content and, where the
+      instance's arithmetic is exact, on count."""
 import json
 import math
 
@@ -26,6 +31,7 @@ MC_CFG = """CONSTANTS
   MaxLenObs = {maxlenobs}
   MaxLenSel = {maxlensel}
   SelAllMax = {selallmax}
+  FreeFamilies <- MCFreeFamilies
 SPECIFICATION Spec
 INVARIANT LatticeShape
 INVARIANT LatticeDisjoint
@@ -35,6 +41,7 @@ INVARIANT MidpointSubdivisionTiles
 INVARIANT UpAccepted
 INVARIANT MirrorIsPointReflection
 INVARIANT NbrIsReflections
+INVARIANT NbrVIIsNeighbourhood
 INVARIANT SelFaithful
 INVARIANT ReprAgree
 INVARIANT ContainSound
@@ -48,6 +55,7 @@ TRACE_CFG = """CONSTANTS
   MaxLenObs = 0
   MaxLenSel = 0
   SelAllMax = 0
+  FreeFamilies = {}
 SPECIFICATION TraceSpec
 POSTCONDITION TraceAccepted
 """
@@ -64,8 +72,11 @@ class Lat:
     """One instance's exact frame: real component = origin + fine * unit.  `swap`: the code's component 0 is the
     lattice's y direction (ArrayTriangles.for_limits_and_scale stores (y, x))."""
 
-    def __init__(self, ux, uy, ox, oy, swap=False, lattice=True):
+    def __init__(self, ux, uy, ox, oy, swap=False, lattice=True, exact=False):
         self.ux, self.uy, self.ox, self.oy, self.swap, self.lattice = float(ux), float(uy), float(ox), float(oy), swap, lattice
+        # exact: units and origin are small dyadic numbers, so every vertex and every b + c - a is an exact float and
+        # coincident vertices are bit-identical (no tolerance involved in de-duplication)
+        self.exact = bool(exact)
         self.max_res = 0.0
 
     @classmethod
@@ -238,7 +249,8 @@ def apply_step(st, step, src, base, rng):
         new[rep] = n
         post, off2 = lat.alpha_tris(n.triangles)
         pa, off3 = _arr_view(lat, rep, n)
-        r = dict(base, api=a, rep=rep, src=src, lat=lat.lattice, off=off + off2 + off3, pre=pre, post=post, post_arr=pa,
+        r = dict(base, api=a, rep=rep, src=src, lat=lat.lattice, exact=bool(rep == "coord" or lat.exact),
+                 off=off + off2 + off3, pre=pre, post=post, post_arr=pa,
                  n_pre=int(len(o)), n_post=int(len(n)), area2_pre=lat.alpha_area(o.area), area2_post=lat.alpha_area(n.area))
         r.update(extra)
         recs.append(r)
@@ -301,6 +313,125 @@ def replay_group(args):
 
 
 # ------------------------------------------------------------------------------------------------
+# irregular vertex/index arrays
+# ------------------------------------------------------------------------------------------------
+DYADIC_UNITS = [1.0, 0.5, 0.125, 2.0, 0.015625]
+DYADIC_OFFSETS = [0.0, 0.5, -1.25, -0.015625, 3.0]
+REALISATIONS = ("direct", "with_vertices", "for_indexes")
+
+
+def free_lattice(rng):
+    """gamma frame of an irregular array: mostly exact (dyadic units and origin), sometimes decimal / arbitrary."""
+    if rng.random() < 0.75:
+        return Lat(float(rng.choice(DYADIC_UNITS)), float(rng.choice(DYADIC_UNITS)), float(rng.choice(DYADIC_OFFSETS)),
+                   float(rng.choice(DYADIC_OFFSETS)), lattice=False, exact=True)
+    return Lat(float(rng.choice([0.1, 0.37, 1.0 / 3.0])), float(rng.choice([0.3, 0.7, 1.0])), float(rng.uniform(-2, 2)),
+               float(rng.choice(OFFSETS)), lattice=False)
+
+
+def _nondeg(a, b, c):
+    return (b[0] - a[0]) * (c[1] - a[1]) - (b[1] - a[1]) * (c[0] - a[0]) != 0
+
+
+def realise_free(lat, V, I, how, rng, base, src):
+    """gamma of the abstract array (V: integer points, I: 0-based triples): a real ArrayTriangles built in one of three
+    ways.  Returns (object, records of the calls made on the way)."""
+    from autoarray.structures.triangles.array import ArrayTriangles
+
+    V = [list(map(int, v)) for v in V]
+    nv = len(V)
+    perm = rng.permutation(nv)  # the caller's vertex order is arbitrary
+    inv = np.argsort(perm)
+    real = lambda pts: np.array([lat.gamma(x, y) for x, y in pts], dtype=float).reshape(-1, 2)
+    Vp = [V[j] for j in perm]
+    Ip = [[int(inv[j]) for j in rng.permutation(t)] for t in I]  # vertex order inside a triangle is arbitrary too
+    recs = []
+    if how == "direct":
+        obj = ArrayTriangles(indices=np.array(Ip), vertices=real(Vp))
+    elif how == "with_vertices":
+        # a regular set with the same connectivity whose vertices are then replaced by the irregular ones
+        regular = np.array([[float(j % 3), float(j // 3)] for j in range(nv)])
+        obj = ArrayTriangles(indices=np.array(Ip), vertices=regular).with_vertices(real(Vp))
+    elif how == "for_indexes":
+        # a larger set (extra vertices beyond the grid, extra triangles) from which the array is selected
+        xmax = max(v[0] for v in V)
+        extra_v = [[xmax + 2 + j, int(rng.integers(-1, 3))] for j in range(int(rng.integers(1, 3)))]
+        allv = Vp + extra_v
+        extra_t = []
+        for _ in range(int(rng.integers(1, 4))):
+            for _try in range(30):
+                t = [int(x) for x in rng.choice(len(allv), size=3, replace=False)]
+                if max(t) >= nv and _nondeg(allv[t[0]], allv[t[1]], allv[t[2]]):
+                    extra_t.append(t)
+                    break
+        rows = [("in", t) for t in Ip] + [("extra", t) for t in extra_t]
+        order = rng.permutation(len(rows))
+        rows = [rows[j] for j in order]
+        sup = ArrayTriangles(indices=np.array([t for _, t in rows]), vertices=real(allv))
+        st = State(lat, None, sup)
+        step = {"a": "sel", "t": [], "q": [], "idx": [j for j, (kind, _) in enumerate(rows) if kind == "in"]}
+        ns, recs = apply_step(st, step, src, dict(base, path=[step]), rng)
+        obj = ns.arr
+    else:
+        raise core.MachineryError(how)
+    return obj, recs
+
+
+def _hash_rng(seed, ints):
+    h = 1469598103934665603
+    for v in [seed] + list(ints):
+        h = ((h ^ (int(v) & 0xFFFF)) * 1099511628211) % (2 ** 63)
+    return h
+
+
+def replay_free_group(args):
+    """S->C: one irregular vertex/index array of the machine and its behaviours (nbr, nbr-nbr)."""
+    v, ix, paths, seed, hows = args
+    recs = []
+    maxres = 0.0
+    h = _hash_rng(seed, [x for p_ in v for x in p_] + [x for t in ix for x in t])
+    if hows is None:
+        hows = (REALISATIONS[h % 3],)
+    I0 = [[int(j) - 1 for j in t] for t in ix]
+    for how in hows:
+        rng = np.random.default_rng([h, REALISATIONS.index(how)])
+        lat = free_lattice(rng)
+        base = {"p": "C20", "g": {"kind": "free-beh", "v": v, "ix": ix, "how": how, "frame": lat.describe()}}
+        obj, rs = realise_free(lat, v, I0, how, rng, base, "free")
+        recs.extend(rs)
+        st0 = State(lat, None, obj)
+        recs.extend(construct_records(st0, "free", dict(base, path=[])))
+        memo = {(): st0}
+        key = lambda p: tuple(s_["a"] for s_ in p)
+        for p_ in sorted(paths, key=len):
+            parent = memo.get(key(p_[:-1]))
+            if parent is None:
+                raise core.MachineryError(f"behaviour {p_} of array {v},{ix} has no dumped prefix")
+            ns, rs = apply_step(parent, p_[-1], "free", dict(base, path=p_), rng)
+            if ns is not None:
+                memo[key(p_)] = ns
+            recs.extend(rs)
+        maxres = max(maxres, lat.max_res)
+    return recs, maxres
+
+
+def free_inputs(fams):
+    """The arrays Triangles.tla enumerates for FreeFamilies (same definition, used to cross-check the number of initial states)."""
+    import itertools
+
+    out = set()
+    for gx, gy, nv, nt in fams:
+        pts = sorted((x, y) for x in range(gx) for y in range(gy))
+        for Vs in itertools.combinations(pts, nv):
+            tr = [t for t in itertools.combinations(range(nv), 3) if _nondeg(Vs[t[0]], Vs[t[1]], Vs[t[2]])]
+            for n in range(2, min(nt, len(tr)) + 1):
+                for I in itertools.combinations(tr, n):
+                    if len({j for t in I for j in t}) == nv:
+                        out.add((Vs, I))
+    return out
+
+
+# ------------------------------------------------------------------------------------------------
 # C->S: seeded random larger instances
 # ------------------------------------------------------------------------------------------------
 def _inside_open(q, t):
@@ -334,7 +465,7 @@ def random_instance(args):
 
     seed, k = args
     rng = np.random.default_rng([seed, k, 20])
-    fam = ("coords", "coords", "limits-coord", "limits-array", "free")[k % 5]
+    fam = ("coords", "coords", "limits-coord", "limits-array", "free", "irregular")[k % 6]
     g = {"kind": "rand", "seed": seed, "k": k, "family": fam}
     base = {"p": "C20", "g": g, "path": []}
     side = SIDES[int(rng.integers(0, len(SIDES)))] if rng.random() < 0.5 else float(rng.uniform(0.05, 3.0))
@@ -380,6 +511,8 @@ def random_instance(args):
         st = State(lat, None, obj)
         src = "limits"
         recs += construct_records(st, src, base)
+    elif fam == "irregular":
+        return irregular_instance(rng, base)
     else:
         # free vertex arrays on an integer grid (multiples of 4: two up-samplings stay on the grid); triangles may overlap
         nv = int(rng.integers(3, 9))
@@ -397,9 +530,8 @@ def random_instance(args):
                     break
         if not I:
             return []
-        ux, uy = float(rng.choice([1.0, 0.125, 0.1, 0.37])), float(rng.choice([1.0, 0.5, 0.3]))
-        ox, oy = float(rng.uniform(-2, 2)), float(rng.choice(OFFSETS))
-        lat = Lat(ux, uy, ox, oy, lattice=False)
+        lat = free_lattice(rng)
+        ux, uy, ox, oy = lat.ux, lat.uy, lat.ox, lat.oy
         verts = np.stack([ox + V[:, 0] * ux, oy + V[:, 1] * uy], axis=1)
         obj = ArrayTriangles(indices=np.array(I), vertices=verts)
         st = State(lat, None, obj)
@@ -414,7 +546,7 @@ def random_instance(args):
         ops = ["sel", "obs"]
         if ups < MAXLEVEL and n <= (40 if ups == 0 else 28):
             ops += ["up", "up"]
-        if lat.lattice and n <= 40:
+        if n <= 40:
             ops += ["nbr"]
         a = ops[int(rng.integers(0, len(ops)))]
         if a == "obs":
@@ -434,6 +566,77 @@ def random_instance(args):
     step = {"a": "obs", "t": [], "q": _random_queries(rng, st.tris(st.reps()[0])[0], 4)}
     _, rs = apply_step(st, step, src, dict(base, path=path + [step]), rng)
     recs += rs
+    return recs
+
+
+def irregular_instance(rng, base):
+    """3..8 irregular triangles on small integer vertices (shared / unshared vertices, elongated, overlapping), realised
+    directly, through with_vertices, through for_indexes, or as a CoordinateArrayTriangles whose vertices are replaced by
+    distorted ones; then neighborhood (twice for small sets), sometimes after an index selection."""
+    from autoarray.structures.triangles.coordinate_array import CoordinateArrayTriangles
+
+    lat = free_lattice(rng)
+    recs = []
+    how = ("direct", "with_vertices", "for_indexes", "distorted")[int(rng.integers(0, 4))]
+    base = dict(base, g=dict(base["g"], how=how))
+    if how == "distorted":
+        # a regular lattice set in the coordinate representation; its vertex array is replaced by integer points
+        n = int(rng.choice([3, 4, 5, 6, 7, 8], p=[0.1, 0.1, 0.1, 0.2, 0.25, 0.25]))
+        R = int(rng.choice([1, 2, 3]))
+        cells = rng.choice((2 * R + 1) ** 2, size=min(n, (2 * R + 1) ** 2), replace=False)
+        c = np.array([[int(v // (2 * R + 1)) - R, int(v % (2 * R + 1)) - R] for v in cells])
+        reg = CoordinateArrayTriangles(coordinates=c, side_length=1.0, flipped=bool(rng.integers(0, 2)))
+        nv = len(reg.vertices)
+        for _try in range(200):
+            V = rng.integers(-4, 5, size=(nv, 2))
+            if len({tuple(p) for p in V.tolist()}) == nv and all(_nondeg(V[t[0]], V[t[1]], V[t[2]]) for t in np.asarray(reg.indices)):
+                break
+        else:
+            return []
+        obj = reg.with_vertices(np.array([lat.gamma(int(x), int(y)) for x, y in V], dtype=float))
+        src = "distorted"
+    else:
+        nt = int(rng.choice([3, 4, 5, 6, 7, 8], p=[0.1, 0.1, 0.1, 0.2, 0.25, 0.25]))  # larger sets: more vertex positions
+        nv = int(rng.integers(4, 8))
+        rx, ry = (int(rng.choice([2, 3, 5])), int(rng.choice([1, 2, 3])))
+        for _try in range(200):
+            V = np.stack([rng.integers(-rx, rx + 1, size=nv), rng.integers(-ry, ry + 1, size=nv)], axis=1)
+            if len({tuple(p) for p in V.tolist()}) == nv:
+                break
+        else:
+            return []
+        I = set()
+        for _try in range(200):
+            t = tuple(sorted(int(x) for x in rng.choice(nv, size=3, replace=False)))
+            if _nondeg(V[t[0]], V[t[1]], V[t[2]]):
+                I.add(t)
+            if len(I) == nt:
+                break
+        if len(I) < 2:
+            return []
+        used = sorted({j for t in I for j in t})
+        remap = {j: k_ for k_, j in enumerate(used)}
+        V = V[used]
+        I = [[remap[j] for j in t] for t in sorted(I)]
+        obj, rs = realise_free(lat, V.tolist(), I, how, rng, base, "free")
+        recs += rs
+        src = "free"
+    st = State(lat, None, obj)
+    recs += construct_records(st, src, base)
+    path = []
+    if rng.random() < 0.3 and len(st.tris("array")[0]) > 3:
+        n = len(st.tris("array")[0])
+        step = {"a": "sel", "t": [], "q": [], "idx": [int(x) for x in rng.choice(n, size=int(rng.integers(2, n)), replace=False)]}
+        path = path + [step]
+        st, rs = apply_step(st, step, src, dict(base, path=path), rng)
+        recs += rs
+    for _ in range(2):
+        if len(st.tris("array")[0]) > 16:
+            break
+        step = {"a": "nbr", "t": [], "q": []}
+        path = path + [step]
+        st, rs = apply_step(st, step, src, dict(base, path=path), rng)
+        recs += rs
     return recs
 
 
@@ -486,8 +689,12 @@ def validate(ctx, records, tag, per_chunk=60000, max_chunks=12):
         rec = records[rj["id"]]
         g = rec.get("g", {})
         path = [s["a"] for s in rec.get("path", [])]
-        where = (f"coords={g.get('c')} flipped={g.get('fl')} side={g.get('side')} offsets=({g.get('xo')},{g.get('yo')})"
-                 if g.get("kind") == "beh" else f"random instance k={g.get('k')} family={g.get('family')}")
+        if g.get("kind") == "beh":
+            where = f"coords={g.get('c')} flipped={g.get('fl')} side={g.get('side')} offsets=({g.get('xo')},{g.get('yo')})"
+        elif g.get("kind") == "free-beh":
+            where = f"vertex array vertices={g.get('v')} indices(1-based)={g.get('ix')} built {g.get('how')}"
+        else:
+            where = f"random instance k={g.get('k')} family={g.get('family')}" + (f" built {g.get('how')}" if g.get("how") else "")
         want = rj.get("want")
         if len(json.dumps(want)) > 4000:
             want = "(large; re-run the replay file)"
@@ -501,6 +708,13 @@ def validate(ctx, records, tag, per_chunk=60000, max_chunks=12):
 # ------------------------------------------------------------------------------------------------
 # entry points
 # ------------------------------------------------------------------------------------------------
+def _replay_any(args):
+    c, fl, v, ix, paths, seed, hows = args
+    if v:
+        return replay_free_group((v, ix, paths, seed, hows))
+    return replay_group((c, fl, paths, seed))
+
+
 def _tla_families(fams):
     return "{" + ", ".join(f"<<{r},{n}>>" for r, n in fams) + "}"
 
@@ -513,20 +727,24 @@ def _expected_inits(fams):
     return 2 * total
 
 
-def enumerate_behaviours(ctx, fams, maxpath, maxlenup, maxlenobs, maxlensel, selallmax, tag="MC_Triangles", timeout=3000):
+def enumerate_behaviours(ctx, fams, free_fams, maxpath, maxlenup, maxlenobs, maxlensel, selallmax, tag="MC_Triangles", timeout=3000):
     cfg = MC_CFG.format(maxlevel=MAXLEVEL, maxpath=maxpath, maxlenup=maxlenup, maxlenobs=maxlenobs, maxlensel=maxlensel, selallmax=selallmax)
-    res = ctx.tlc("Triangles", cfg, defs=f"MCFamilies == {_tla_families(fams)}", tag=tag, timeout=timeout)
+    defs = (f"MCFamilies == {_tla_families(fams)}\n"
+            f"MCFreeFamilies == {{{', '.join('<<%d,%d,%d,%d>>' % tuple(f) for f in free_fams)}}}")
+    res = ctx.tlc("Triangles", cfg, defs=defs, tag=tag, timeout=timeout)
     beh = res.by_kind("beh")
-    if res.init_states != _expected_inits(fams) or len(beh) != res.distinct - res.init_states:
-        raise core.MachineryError(f"Triangles.tla: {res.init_states} initial states (expected {_expected_inits(fams)}), "
+    expected = (_expected_inits(fams) if fams else 0) + len(free_inputs(free_fams))
+    if res.init_states != expected or len(beh) != res.distinct - res.init_states:
+        raise core.MachineryError(f"Triangles.tla: {res.init_states} initial states (expected {expected}), "
                                   f"{len(beh)} behaviours dumped for {res.distinct} states")
     groups = {}
     for b in beh:
-        groups.setdefault((json.dumps(b["c"]), bool(b["fl"])), []).append(b["path"])
-    # inputs on which no call is enabled do not exist (Select is always enabled), so every initial state has a group
+        groups.setdefault((json.dumps(b["c"]), bool(b["fl"]), json.dumps(b["v"]), json.dumps(b["ix"])), []).append(b["path"])
+    # inputs on which no call is enabled do not exist (Select / NeighborhoodVI are enabled initially), so every initial
+    # state has a group
     if len(groups) != res.init_states:
         raise core.MachineryError(f"{len(groups)} replay groups for {res.init_states} initial states")
-    return [(json.loads(c), fl, paths) for (c, fl), paths in groups.items()], len(beh)
+    return [(json.loads(c), fl, json.loads(v), json.loads(ix), paths) for (c, fl, v, ix), paths in groups.items()], len(beh)
 
 
 def run(ctx):
@@ -535,42 +753,47 @@ def run(ctx):
     quick = ctx.quick
     maxlenup, maxlenobs, maxlensel, selallmax = (8 if quick else 12), 4, 16, 4
     if quick:
-        runs, nrand = [([(2, 1), (1, 3)], 3)], 200
+        runs, nrand = [([(2, 1), (1, 3)], [(4, 2, 4, 4), (3, 2, 6, 2)], 3)], 240
     else:
-        # (families, calls per behaviour): deep behaviours on <=2 triangles in (-3..3)^2 and <=3 in (-1..1)^2,
-        # every single call on every set of <=3 triangles in (-2..2)^2
-        runs, nrand = [([(3, 2), (1, 3)], 3), ([(2, 3)], 1)], 2000
-    ctx.bounds = {"machine_runs_(families_(range,max_triangles),calls_per_behaviour)": runs, "flipped": [False, True],
+        # (families, irregular-array families, calls per behaviour): deep behaviours on <=2 triangles in (-3..3)^2 and <=3 in
+        # (-1..1)^2, every single call on every set of <=3 triangles in (-2..2)^2
+        runs, nrand = [([(3, 2), (1, 3)], [(3, 3, 4, 4), (5, 2, 4, 4), (3, 3, 6, 2)], 3), ([(2, 3)], [(3, 3, 5, 2)], 1)], 2400
+    ctx.bounds = {"machine_runs_(families_(range,max_triangles),irregular_array_families_(gx,gy,vertices,max_triangles),calls_per_behaviour)": runs,
+                  "flipped": [False, True],
                   "up_samplings": f"0..{MAXLEVEL}", "up/nbr_on_sets_up_to": maxlenup, "containment_on_sets_up_to": maxlenobs,
                   "for_indexes_on_sets_up_to": maxlensel, "all_index_subsets_up_to": selallmax,
                   "queries": "all quarter-unit lattice points strictly inside a triangle, as Point and (by turn) Circle/Square/Polygon/Triangle",
+                  "irregular_arrays": "every array of nv distinct grid points with 2..nt non-degenerate triangles using all of them; neighborhood "
+                                      "and (sets <= 16) its neighbourhood; realised directly / via with_vertices / via for_indexes "
+                                      + ("(one way per array, by turn)" if quick else "(all three ways)"),
                   "random_instances": nrand, "sides": SIDES + ["uniform(0.05,3)"], "offsets": OFFSETS + ["uniform(-3,3)"],
                   "tolerance_fine_units": TOL}
     t0 = time.time()
     merged, nbeh = {}, 0
-    for k, (fams, maxpath) in enumerate(runs):
-        groups, nb = enumerate_behaviours(ctx, fams, maxpath, maxlenup, maxlenobs, maxlensel, selallmax, tag=f"MC_Triangles_{k}")
-        for c, fl, paths in groups:
-            have = merged.setdefault((json.dumps(c), fl), {})
+    for k, (fams, free_fams, maxpath) in enumerate(runs):
+        groups, nb = enumerate_behaviours(ctx, fams, free_fams, maxpath, maxlenup, maxlenobs, maxlensel, selallmax, tag=f"MC_Triangles_{k}")
+        for c, fl, v, ix, paths in groups:
+            have = merged.setdefault((json.dumps(c), fl, json.dumps(v), json.dumps(ix)), {})
             for p in paths:
                 have.setdefault(json.dumps(p), p)
         nbeh += nb
-    groups = [(json.loads(c), fl, list(paths.values())) for (c, fl), paths in merged.items()]
-    nbeh_distinct = sum(len(g[2]) for g in groups)
+    groups = [(json.loads(c), fl, json.loads(v), json.loads(ix), list(paths.values())) for (c, fl, v, ix), paths in merged.items()]
+    nbeh_distinct = sum(len(g[4]) for g in groups)
     calls = {}
     for g in groups:
-        for p in g[2]:
-            calls[p[-1]["a"]] = calls.get(p[-1]["a"], 0) + 1
+        for p in g[4]:
+            name = p[-1]["a"] + ("(irregular array)" if g[2] else "")
+            calls[name] = calls.get(name, 0) + 1
     ctx.note(f"machine transitions by action (all replayed): {calls}")
     t1 = time.time()
     ctx.exhaustive = True
     maxres, nb, nrec, t_replay, t_valid, sampled = 0.0, 0, 0, 0.0, 0.0, set()
 
     def take_samples(recs):
-        for want in ("up", "contain"):
+        for want in ("up", "contain", "nbr"):
             if want not in sampled:
                 for r in recs:
-                    if r["api"] == want and len(r.get("pre", r.get("tris"))) <= 2:
+                    if r["api"] == want and len(r.get("pre", r.get("tris"))) <= 2 and (want != "nbr" or r["src"] == "free"):
                         r = {k: v for k, v in r.items() if k != "path"}
                         if want == "contain":  # first queries only
                             r["shapes"], r["reported"], r["truncated_from"] = r["shapes"][:6], r["reported"][:6], len(r["shapes"])
@@ -580,7 +803,8 @@ def run(ctx):
 
     # batches keep the memory of the recorded calls bounded; every batch (behaviours of up to 1200 initial inputs plus
     # the records of up to 1000 random instances) is validated by its own TLC processes
-    groups.sort(key=lambda g: (len(g[0]), g[0], g[1]))
+    groups.sort(key=lambda g: (len(g[0]), g[0], g[1], g[2], g[3]))
+    hows = None if quick else REALISATIONS
     batch = 1200
     ks = list(range(nrand))
     rand_batches = [ks[b : b + 1000] for b in range(0, nrand, 1000)]
@@ -588,7 +812,7 @@ def run(ctx):
     for b in range(nbatches):
         ta = time.time()
         recs = []
-        for part, mr in core.pmap(replay_group, [(c, fl, paths, ctx.seed) for c, fl, paths in groups[b * batch : (b + 1) * batch]], chunksize=4):
+        for part, mr in core.pmap(_replay_any, [(c, fl, v, ix, paths, ctx.seed, hows) for c, fl, v, ix, paths in groups[b * batch : (b + 1) * batch]], chunksize=4):
             recs.extend(part)
             maxres = max(maxres, mr)
         nb += len(recs)
@@ -610,6 +834,11 @@ def run(ctx):
         "triangles are compared as vertex sets on the instance's fine lattice; a vertex further than 1e-9 fine units from the lattice is a rejection (on-lattice clause)",
         "the integer-coordinate form is read as the lattice of DESIGN section 4 (vertices (cx,2cy+f),(cx+-f,2cy-f) in units (s/2, s*sqrt(3)/4) plus offsets)",
         "neighbourhoods are compared as sets, selections and representations as multisets, containment one-directionally (reference point strictly inside => reported)",
+        "on an arbitrary vertex array the edge-reflected neighbour is the triangle sharing the edge with the opposite vertex at b + c - a (half-turn about the edge midpoint; "
+        "the mirror image for the equilateral sets of the property's quantifier, checked there); irregular arrays (ArrayTriangles(indices, vertices), with_vertices) are taken "
+        "to be in scope of the vertex-array representation although the quantifier lists only the regular producers",
+        "the count of a neighbourhood (every neighbour once) is demanded only where the instance's arithmetic is exact (integer coordinates; dyadic units and origin), "
+        "because coincident vertices are only claimed up to a floating-point tolerance",
         "the JAX variants (jax_array.py, jax_coordinate_array.py) are not importable here and are not exercised",
     ]
 
@@ -617,10 +846,13 @@ def run(ctx):
 def replay(ctx, rp):
     rec = rp["record"]
     g = rec["g"]
+    path = rec.get("path", [])
+    paths = [path[:k] for k in range(1, len(path) + 1)]
     if g["kind"] == "beh":
-        path = rec.get("path", [])
-        paths = [path[:k] for k in range(1, len(path) + 1)]
         recs, _ = replay_group((g["c"], g["fl"], paths, ctx.seed))
+    elif g["kind"] == "free-beh":
+        paths = [p for p in paths if all(s_["a"] == "nbr" for s_ in p)]
+        recs, _ = replay_free_group((g["v"], g["ix"], paths, ctx.seed, (g["how"],)))
     else:
         recs = random_instance((g["seed"], g["k"]))
     rej = validate(ctx, recs, "C20-replay")
